@@ -30,6 +30,24 @@ var f32Pool = []float32{0.1, 1.0 / 3.0, 3.4028234663852886e38, 1.401298464324817
 func fF32r(k int) float32     { return f32Pool[k] }
 func fF64r(x float64) float64 { return x }
 
+// parameters and results of DEFINED types whose kind is a basic one (type Level int, time.Month ...)
+type Level int
+type Name string
+type Celsius float64
+type Flag bool
+
+var (
+	gotLevel Level
+	gotName  Name
+	gotCel   Celsius
+	gotFlag  Flag
+)
+
+func fLevel(x Level) Level       { gotLevel = x; return x }
+func fName(x Name) Name          { gotName = x; return x }
+func fCelsius(x Celsius) Celsius { gotCel = x; return x }
+func fFlag(x Flag) Flag          { gotFlag = x; return x }
+
 // Calc is registered as a script class; its methods go through ReflectMethod.
 type Calc struct{}
 
@@ -54,6 +72,10 @@ func callMore(src string, binds ...sx.Bind) (sx.Obs, bool, bool) {
 		func() data.FuncStmt { return runtime.NewReflectFunction("go_ures", fUintRes) },
 		func() data.FuncStmt { return runtime.NewReflectFunction("go_f32", fF32r) },
 		func() data.FuncStmt { return runtime.NewReflectFunction("go_f64", fF64r) },
+		func() data.FuncStmt { return runtime.NewReflectFunction("go_level", fLevel) },
+		func() data.FuncStmt { return runtime.NewReflectFunction("go_name", fName) },
+		func() data.FuncStmt { return runtime.NewReflectFunction("go_cel", fCelsius) },
+		func() data.FuncStmt { return runtime.NewReflectFunction("go_flag", fFlag) },
 		func() data.FuncStmt { return runtime.NewReflectFunction("go_f32", fF32r) },
 	}
 	s := sx.Compile(src)
@@ -210,6 +232,43 @@ func H_reflect_float_result() {
 		symx.Assert(ok && !threw, "float64 result: call completes")
 		if ok && !threw {
 			symx.Assert(o.Kind == 'f' && symx.SameFloat(o.F, f), "float64 result is exactly the value Go returned")
+		}
+	}
+	symx.Reach("end")
+}
+
+// H_reflect_defined: Go functions whose parameter and result types are DEFINED types of kind int /
+// string / float64 / bool: the value arrives as that type unchanged and comes back unchanged; the
+// call never crashes the interpreter.
+func H_reflect_defined() {
+	switch symx.Choose("type", 4) {
+	case 0:
+		x := symx.Int("x")
+		o, threw, ok := callMore("emit(go_level($a));", sx.Bind{Name: "a", V: sx.Int(x)})
+		symx.Assert(ok && !threw, "defined int type: call completes")
+		if ok && !threw {
+			symx.Assert(int(gotLevel) == x && o.Kind == 'i' && o.I == x, "defined int type: value in, value out")
+		}
+	case 1:
+		s := symx.String("s", symx.Param("n", 1))
+		o, threw, ok := callMore("emit(go_name($a));", sx.Bind{Name: "a", V: sx.Str(s)})
+		symx.Assert(ok && !threw, "defined string type: call completes")
+		if ok && !threw {
+			symx.Assert(string(gotName) == s && o.Kind == 's' && o.S == s, "defined string type: value in, value out")
+		}
+	case 2:
+		f := symx.Float64("f")
+		o, threw, ok := callMore("emit(go_cel($a));", sx.Bind{Name: "a", V: sx.Float(f)})
+		symx.Assert(ok && !threw, "defined float type: call completes")
+		if ok && !threw {
+			symx.Assert(symx.SameFloat(float64(gotCel), f) && o.Kind == 'f' && symx.SameFloat(o.F, f), "defined float type: value in, value out")
+		}
+	case 3:
+		b := symx.Bool("b")
+		o, threw, ok := callMore("emit(go_flag($a));", sx.Bind{Name: "a", V: sx.Bool(b)})
+		symx.Assert(ok && !threw, "defined bool type: call completes")
+		if ok && !threw {
+			symx.Assert(bool(gotFlag) == b && o.Kind == 'b' && o.B == b, "defined bool type: value in, value out")
 		}
 	}
 	symx.Reach("end")
